@@ -343,30 +343,49 @@ theorem timingReset_fields (a0 a : A) :
     (timingReset cfg a0 a).w = a.w ∧ (timingReset cfg a0 a).fail = a.fail := by
   unfold timingReset; split <;> exact ⟨rfl, rfl, rfl, rfl, rfl, rfl, rfl, rfl⟩
 
-/-- **the TRAFFIC clause of one round, per observer**: on the model's own events of the round every connection that
-    received a MESSAGE_TRAFFIC sub-message in the round's last stretch received the whole report of the interval, and it
-    passes every per-observer check of `Spec.checkTraffic`; with the clause about subscribers that are *owed* a report as
-    a hypothesis (`howed`), `checkTraffic` leaves the abstract state as it is -/
+omit ok hfuel in
+theorem trafficFrames_ne_nil (hsz : 0 < cfg.trafficSize) (sq : Nat) (c : List (Int × Nat)) (hc : c ≠ []) :
+    trafficFrames cfg sq c ≠ [] := by
+  unfold trafficFrames
+  intro he
+  have h1 := List.map_eq_nil_iff.mp he
+  have h2 := enumFrom1_snd 1 (chunks cfg.trafficSize c (c.length + 1))
+  rw [h1] at h2
+  have h3 := chunks_flatten cfg.trafficSize hsz (c.length + 1) c (Nat.lt_succ_self _)
+  rw [← h2] at h3
+  exact hc h3.symm
+
+/-- **the TRAFFIC clause of one round**: on the model's own events of the round `Spec.tail`'s MESSAGE_TRAFFIC clause
+    leaves the abstract state as it is — every connection that received a MESSAGE_TRAFFIC sub-message in the round's last
+    stretch received the whole report of the interval and passes every per-observer check of `Spec.checkTraffic`, and
+    every subscriber the Spec considers owed a report (alive, subscribed, writable or a logger, not failing, not closed
+    in the stretch) is one the model's broadcast reaches -/
 theorem traffic_round {x : State} {a : A} (h : RInv cfg x a) (hna : MgrNotAll cfg) (hord : OrderGood cfg)
     (hsz : 0 < cfg.trafficSize) (hneg : mgrType cfg (-1) = false) (r : Round)
     (hr : RoundOK r) (hnw : NoWrap cfg (stepR cfg x r).hist)
-    (a9 : A) (ha9 : a9 = timingReset cfg (roundPre cfg a r (stepR cfg x r).out) (roundPre cfg a r (stepR cfg x r).out))
-    (howed : (a9.pubR.filter (·.1 != -1)).isEmpty = false →
-      ∀ m ∈ owedOf cfg a9 (lastEvs (stepR cfg x r).out),
-        (((trOf (lastEvs (stepR cfg x r).out)).map (·.1)).eraseDups).contains m.uid = true) :
-    checkTraffic cfg a9 (lastEvs (stepR cfg x r).out) = a9 := by
+    (a9 : A) (ha9 : a9 = timingReset cfg (roundPre cfg a r (stepR cfg x r).out) (roundPre cfg a r (stepR cfg x r).out)) :
+    trafficPart cfg a9 (lastEvs (stepR cfg x r).out) = a9 := by
   obtain ⟨x2, T, a', rT, rR, lastIO, hP, hS2, _, hrR, hW2⟩ := round_pre ok hfuel h hna hord r hr
   generalize ha7 : roundPre cfg a r (stepR cfg x r).out = a7 at hP ha9
   have hpre := hP.pre
   rw [ha7] at hpre
-  obtain ⟨_, g2, g3, g4, _, _, _, _⟩ := timingReset_fields (cfg := cfg) a7 a7
-  rw [← ha9] at g2 g3 g4
+  obtain ⟨g1, g2, g3, g4, g5, g6, g7, g8⟩ := timingReset_fields (cfg := cfg) a7 a7
+  rw [← ha9] at g1 g2 g3 g4 g5 g6 g7 g8
   have fpub : a9.pubR = a'.pubR := by rw [g2]; have := congrArg A.pubR hpre; exact this
   have frecv : a9.recvR = rR := by rw [g3]; have := congrArg A.recvR hpre; exact this
   have fseq : a9.seq = x2.trafficSeq := by rw [g4]; have := congrArg A.seq hpre; exact this.trans hS2.seq
-  apply checkTraffic_fix cfg a9 _ howed
-  intro o ho
-  rw [hP.last] at ho ⊢
+  have fmods : a9.mods = depMods a'.mods (closes T) := by rw [g1]; have := congrArg A.mods hpre; exact this
+  have fnow : a9.now = x2.now := by rw [g5]; have := congrArg A.now hpre; exact this.trans hS2.now
+  have ftR : a9.tTraffic = x2.tTraffic := by rw [g6]; have := congrArg A.tTraffic hpre; exact this.trans hS2.tR
+  have fw : a9.w = a'.w := by rw [g7]; have := congrArg A.w hpre; exact this
+  have ffail : a9.fail = x2.fail := by rw [g8]; have := congrArg A.fail hpre; exact this.trans hS2.fail
+  unfold trafficPart
+  split
+  rotate_left
+  · rfl
+  rename_i hper
+  rw [fnow, ftR] at hper
+  rw [hP.last]
   -- the MESSAGE_TRAFFIC frames of the last stretch are those of the periodic section
   obtain ⟨pfx, hpfx⟩ := hP.io
   have hq0 : dataSends isTrafficB pfx = [] ∧ dataSends isTrafficB lastIO = [] := by
@@ -375,29 +394,110 @@ theorem traffic_round {x : State} {a : A} (h : RInv cfg x a) (hna : MgrNotAll cf
     exact List.append_eq_nil_iff.mp this
   have hD : dataSends isTrafficB (lastIO ++ T) = dataSends isTrafficB (ticks cfg x2).out := by
     rw [hP.ev.out, hpfx, List.append_assoc, dataSends_append _ pfx, hq0.1]; rfl
-  obtain ⟨sL, _, _, _, _, hrows⟩ := ticks_traffic ok hfuel hna hord hP.inv2.top hP.inv2.stat.idle (ackFrame cfg 0) rfl
-  have hmine := mine_eq (lastIO ++ T) o
-  rw [hD, hrows o, hP.quietR] at hmine
-  simp only [List.filter_nil, List.nil_append] at hmine
-  -- `o` is an observer: it received something
-  have hmem : o ∈ (trOf (lastIO ++ T)).map (·.1) := mem_of_mem_eraseDups _ _ (Nat.le_refl _) o ho
-  obtain ⟨row, hrow, hro⟩ := List.mem_map.mp hmem
-  have hne : (trOf (lastIO ++ T)).filter (·.1 == o) ≠ [] := by
-    intro he
-    have : row ∈ (trOf (lastIO ++ T)).filter (·.1 == o) := List.mem_filter.mpr ⟨hrow, by simp [hro]⟩
-    rw [he] at this; cases this
-  by_cases hc : x2.now - x2.tTraffic > 1000 ∧ recvB cfg sL cfg.mtTraffic (ackFrame cfg 0) o = true
-  · rw [if_pos hc, List.map_map] at hmine
-    rw [hmine]
-    have hcounts : x2.traffic = tallyOn [] (sinceTick .trafficTick x2.hist) := hP.inv2.stat.traffic
-    have hgrow : ∃ e, (stepR cfg x r).hist = e ++ x2.hist := by rw [hP.step]; exact ticks_grows cfg x2
-    obtain ⟨eg, heg⟩ := hgrow
-    have := obsOK_rows cfg hsz hneg a9 (sinceTick .trafficTick x2.hist) o (by rw [fpub]; exact hS2.pubR)
-      (by rw [frecv]; exact hrR) (fun t => hmgr_lt_of_noWrap hnw heg _ t)
-    rw [fseq, ← hcounts] at this
-    exact this
-  · rw [if_neg hc] at hmine
-    exact absurd hmine hne
+  obtain ⟨sL, hpres, hikp, _, hTL, hrows⟩ := ticks_traffic ok hfuel hna hord hP.inv2.top hP.inv2.stat.idle (ackFrame cfg 0) rfl
+  have hcounts : x2.traffic = tallyOn [] (sinceTick .trafficTick x2.hist) := hP.inv2.stat.traffic
+  apply checkTraffic_fix cfg a9 _ ?_ ?_
+  · -- the subscribers that are owed the report
+    intro hne m hm
+    unfold owedOf at hm
+    obtain ⟨hmem, hcond⟩ := List.mem_filter.mp hm
+    simp only [Bool.and_eq_true, Bool.not_eq_true'] at hcond
+    obtain ⟨⟨⟨⟨hal, hsub⟩, hready⟩, hnf⟩, _⟩ := hcond
+    rw [fmods] at hmem
+    have hm' : m ∈ a'.mods := alive_of_dep hmem hal
+    have hopen : isOpen x2 m.uid = true := by rw [← hS2.alive m hm']; exact hal
+    have hfs : (x2.find m.uid).isSome = true := by rw [← isOpen_iff_find hP.inv2.top]; exact hopen
+    obtain ⟨mm, hmm⟩ := Option.isSome_iff_exists.mp hfs
+    have hu0 : m.uid ≠ 0 := by
+      have hu : m.uid ∈ a'.mods.map (·.uid) := List.mem_map.mpr ⟨m, hm', rfl⟩
+      rw [hS2.uids] at hu
+      obtain ⟨i, _, he⟩ := List.mem_map.mp hu
+      omega
+    obtain ⟨am, ham, hte⟩ := hS2.tab mm (mem_of_find hmm) (by rw [find_uid hmm]; exact hu0)
+    have : am = m := sim_unique hS2 ham hm' (hte.1.trans (find_uid hmm))
+    subst this
+    have hfo : failOf x2 am.uid = none := by
+      have := failing_eq ffail am.uid
+      rw [hnf] at this
+      cases hq : failOf x2 am.uid with
+      | none => rfl
+      | some _ => rw [hq] at this; cases this
+    have hse := hS2.subs am hm' mm hmm
+    -- the model's broadcast reaches it
+    have hrecv : recvB cfg sL cfg.mtTraffic (ackFrame cfg 0) am.uid = true := by
+      unfold recvB
+      rw [Bool.and_eq_true]
+      constructor
+      · rw [List.contains_iff_mem, mem_recipients hord hTL.good.inv]
+        unfold subscribed at hsub
+        rw [Bool.or_eq_true] at hsub
+        rcases hsub with h1 | h1
+        · exact Or.inr (hikp.2 _ _ hfo (hse.idxA h1))
+        · exact Or.inl (hikp.2 _ _ hfo (hse.idxT _ (by simpa using h1)))
+      · rw [elig_pres hpres]
+        unfold elig canTake
+        rw [hmm]
+        simp only [hfo, Option.isNone_none, Bool.and_true, hP.inv2.top.aopen _ _ hmm, Bool.not_false, Bool.true_and]
+        split
+        · rfl
+        · rename_i hnw'
+          unfold ready at hready
+          rw [Bool.or_eq_true] at hready
+          rcases hready with h1 | h1
+          · rw [fw] at h1
+            exact absurd ((hW2 am hm' hal).mp h1) hnw'
+          · rw [← hte.2.2.2.2]; exact h1
+    -- something was handled in the interval, so the report has a sub-message
+    have hne' : x2.traffic ≠ [] := by
+      rw [fpub, hS2.pubR] at hne
+      cases hl : List.filter (fun x => x.1 != -1) (tallyOn [] (cliMarks cfg (sinceTick .trafficTick x2.hist))) with
+      | nil => rw [hl] at hne; cases hne
+      | cons p ps =>
+        have hp : p ∈ tallyOn [] (cliMarks cfg (sinceTick .trafficTick x2.hist)) :=
+          (List.mem_filter.mp (by rw [hl]; exact List.mem_cons_self)).1
+        have hpos := tallyOn_pos [] (cliMarks cfg (sinceTick .trafficTick x2.hist)) (fun _ h => by cases h) p hp
+        have hval := ctrVal_mem (tallyOn_nodup [] (cliMarks cfg (sinceTick .trafficTick x2.hist)) (by simp [ctrKeys])) hp
+        rw [ctrVal_tallyOn, handled_cliMarks] at hval
+        intro he
+        have h2 := ctrVal_tallyOn [] (sinceTick .trafficTick x2.hist) p.1
+        rw [← hcounts, he] at h2
+        have h3 : ctrVal [] p.1 = 0 := rfl
+        rw [h3] at h2 hval
+        split at hval <;> omega
+    have hfr := trafficFrames_ne_nil hsz x2.trafficSeq x2.traffic hne'
+    have hmine := mine_eq (lastIO ++ T) am.uid
+    rw [hD, hrows am.uid, hP.quietR, if_pos ⟨hper, hrecv⟩] at hmine
+    simp only [List.filter_nil, List.nil_append, List.map_map] at hmine
+    cases hfl : trafficFrames cfg x2.trafficSeq x2.traffic with
+    | nil => exact absurd hfl hfr
+    | cons f fs =>
+      rw [hfl] at hmine
+      have hrow : rowOf am.uid f ∈ (trOf (lastIO ++ T)).filter (·.1 == am.uid) := by rw [hmine]; simp
+      have hrow' := (List.mem_filter.mp hrow).1
+      rw [List.contains_iff_mem, List.mem_eraseDups]
+      exact List.mem_map.mpr ⟨_, hrow', rowOf_fst _ _⟩
+  · intro o ho
+    have hmine := mine_eq (lastIO ++ T) o
+    rw [hD, hrows o, hP.quietR] at hmine
+    simp only [List.filter_nil, List.nil_append] at hmine
+    -- `o` is an observer: it received something
+    have hmem : o ∈ (trOf (lastIO ++ T)).map (·.1) := mem_of_mem_eraseDups _ _ (Nat.le_refl _) o ho
+    obtain ⟨row, hrow, hro⟩ := List.mem_map.mp hmem
+    have hne : (trOf (lastIO ++ T)).filter (·.1 == o) ≠ [] := by
+      intro he
+      have : row ∈ (trOf (lastIO ++ T)).filter (·.1 == o) := List.mem_filter.mpr ⟨hrow, by simp [hro]⟩
+      rw [he] at this; cases this
+    by_cases hc : x2.now - x2.tTraffic > 1000 ∧ recvB cfg sL cfg.mtTraffic (ackFrame cfg 0) o = true
+    · rw [if_pos hc, List.map_map] at hmine
+      rw [hmine]
+      have hgrow : ∃ e, (stepR cfg x r).hist = e ++ x2.hist := by rw [hP.step]; exact ticks_grows cfg x2
+      obtain ⟨eg, heg⟩ := hgrow
+      have := obsOK_rows cfg hsz hneg a9 (sinceTick .trafficTick x2.hist) o (by rw [fpub]; exact hS2.pubR)
+        (by rw [frecv]; exact hrR) (fun t => hmgr_lt_of_noWrap hnw heg _ t)
+      rw [fseq, ← hcounts] at this
+      exact this
+    · rw [if_neg hc] at hmine
+      exact absurd hmine hne
 
 end withcfg
 
